@@ -86,7 +86,7 @@ def run(ctx):
     n = 60 if quick else 1500
     terms, kept = [], []
     for i in range(n):
-        p = dprog.gen_dprogram(ctx.rng, with_order2=(i % 3 == 0), plain=("spoil", "wait", "pd"))
+        p = dprog.gen_dprogram(ctx.rng, with_order2=(i % 3 == 0), plain=("spoil", "wait", "pd", "reset"))
         try:
             snaps = dprog.run_impl_d(p)
             plain = dprog.run_impl_d(strip(p))
